@@ -56,6 +56,12 @@ class _Continue(Exception):
     pass
 
 
+class LocalFn:
+    """a function defined inside the evaluated method (closure over the defining environment), or a lambda"""
+    def __init__(self, params, body, env, is_lambda=False):
+        self.params, self.body, self.env, self.is_lambda = params, body, env, is_lambda
+
+
 class Obj:
     """an abstract instance with a class-level attribute fallback"""
 
@@ -101,6 +107,23 @@ class Evaluator:
             finally:
                 self._resolving = self._resolving - {e.id}
             return v
+        # a constant imported from another yatiml module
+        mod = getattr(self, 'cur_module', None)
+        P = getattr(self, 'program', None)
+        if mod is not None and P is not None and e.id in mod.imports and mod.imports[e.id].startswith('yatiml'):
+            m2, _, cname = mod.imports[e.id].rpartition('.')
+            other = P.modules.get(m2)
+            if other is not None and cname in other.constants and (m2, cname) not in getattr(self, '_resolving_x', set()):
+                self._resolving_x = getattr(self, '_resolving_x', set()) | {(m2, cname)}
+                saved = (getattr(self, 'module_constants', None), mod)
+                self.module_constants, self.cur_module = other.constants, other
+                try:
+                    return self.ev(other.constants[cname], {})
+                except AnalysisError:
+                    return Opaque(e.id)
+                finally:
+                    self.module_constants, self.cur_module = saved
+                    self._resolving_x = self._resolving_x - {(m2, cname)}
         return Opaque(e.id)
 
     def e_Tuple(self, e, env):
@@ -190,6 +213,8 @@ class Evaluator:
             return RE_FLAGS[e.attr]
         base = self.ev(e.value, env)
         if isinstance(base, Obj):
+            if e.attr == '__dict__':
+                return base.attrs
             if e.attr in base.attrs:
                 return base.attrs[e.attr]
             if e.attr in base.cls_attrs:
@@ -305,8 +330,29 @@ class Evaluator:
                 return list(zip(*[self.iterate(a) for a in args]))
             if n == 'isinstance':
                 return Opaque('isinstance')
+            if n == 'cast' and len(args) == 2:
+                return args[1]
+            if n == 'vars' and len(args) == 1 and isinstance(args[0], Obj):
+                return args[0].attrs
+            if n == 'hasattr' and len(args) == 2 and isinstance(args[0], Obj) and isinstance(args[1], str):
+                return args[1] in args[0].attrs or args[1] in args[0].cls_attrs or args[1] in args[0].methods
+            if n == 'getattr' and len(args) >= 2 and isinstance(args[0], Obj) and isinstance(args[1], str):
+                o = args[0]
+                if args[1] in o.attrs:
+                    return o.attrs[args[1]]
+                if args[1] in o.cls_attrs:
+                    return o.cls_attrs[args[1]]
+                return args[2] if len(args) == 3 else Opaque('getattr')
+            if n == 'setattr' and len(args) == 3 and isinstance(args[0], Obj) and isinstance(args[1], str):
+                args[0].attrs[args[1]] = args[2]
+                return None
             if n in env and isinstance(env[n], FunctionInfo):
                 return self.call_function(env[n], args, kw, env)
+            if n in env and isinstance(env[n], LocalFn):
+                return self.call_local(env[n], args, kw)
+            fi = self.resolve_function(n)
+            if fi is not None:
+                return self.call_function(fi, args, kw, env)
             return Opaque('call ' + n)
         return Opaque('call')
 
@@ -430,15 +476,57 @@ class Evaluator:
                         env.pop(t.id, None)
                     else:
                         raise AnalysisError('partial evaluator: unsupported del')
-            elif isinstance(st, (ast.FunctionDef, ast.ClassDef, ast.Import, ast.ImportFrom, ast.Assert)):
+            elif isinstance(st, ast.FunctionDef):
+                a_ = st.args
+                if not (a_.vararg or a_.kwarg or a_.kwonlyargs or a_.posonlyargs):
+                    env[st.name] = LocalFn([x.arg for x in a_.args], st.body, env)
+            elif isinstance(st, (ast.ClassDef, ast.Import, ast.ImportFrom, ast.Assert)):
                 pass
             else:
                 raise AnalysisError('partial evaluator: unsupported statement %s (line %s)'
                                     % (type(st).__name__, getattr(st, 'lineno', '?')))
 
+    def e_Lambda(self, e, env):
+        a_ = e.args
+        if a_.vararg or a_.kwarg or a_.kwonlyargs or a_.posonlyargs:
+            return Opaque('lambda')
+        return LocalFn([x.arg for x in a_.args], e.body, env, is_lambda=True)
+
+    def call_local(self, fn: LocalFn, args, kw):
+        env = dict(fn.env)
+        env.update(zip(fn.params, args))
+        env.update(kw)
+        if fn.is_lambda:
+            return self.ev(fn.body, env)
+        try:
+            self.run(fn.body, env)
+        except _Return as r:
+            return r.v
+        return None
+
+    def resolve_function(self, name: str):
+        """a module-level function of the yatiml module being evaluated, or one it imports from another yatiml module"""
+        mod = getattr(self, 'cur_module', None)
+        if mod is None:
+            return None
+        fi = mod.functions.get(name)
+        if fi is not None and fi.cls is None and fi.parent is None:
+            return fi
+        target = mod.imports.get(name)
+        P = getattr(self, 'program', None)
+        if target and P is not None and target.startswith('yatiml'):
+            m2, _, fn_name = target.rpartition('.')
+            other = P.modules.get(m2)
+            if other is not None:
+                fi = other.functions.get(fn_name)
+                if fi is not None and fi.cls is None and fi.parent is None:
+                    return fi
+        return None
+
     def call_method(self, obj: Obj, fi: FunctionInfo, args, kw):
         if fi.module.name.startswith('yatiml'):
             self.module_constants = fi.module.constants
+            self.cur_module = fi.module
         params = [a.arg for a in fi.node.args.args]
         env: Dict[str, Any] = {params[0]: obj} if params else {}
         for p, a in zip(params[1:], args):
@@ -454,10 +542,15 @@ class Evaluator:
         params = [a.arg for a in fi.node.args.args]
         env = dict(zip(params, args))
         env.update(kw)
+        saved = (getattr(self, 'module_constants', None), getattr(self, 'cur_module', None))
+        if fi.module.name.startswith('yatiml'):
+            self.module_constants, self.cur_module = fi.module.constants, fi.module
         try:
             self.run(fi.node.body, env)
         except _Return as r:
             return r.v
+        finally:
+            self.module_constants, self.cur_module = saved
         return None
 
 
